@@ -53,6 +53,7 @@ func (state *RuntimeState) BootstrapOtpAuthHandler(w http.ResponseWriter,
 		}
 		inputOtpHash = sha512.Sum512([]byte(val[0]))
 	}
+	defer state.lockUserProfile(authData.Username)()
 	profile, _, fromCache, err := state.LoadUserProfile(authData.Username)
 	if err != nil {
 		state.logger.Printf("error loading user profile err=%s", err)
